@@ -141,6 +141,12 @@ structure Facts where
   assertPtrNeedsPtr : Bool
   /-- cfg.go post-order `case typeSwitch`: the clause types are checked with `typeAssertionExpr` (since 5c3b0c5) -/
   tswitchCasesChecked : Bool
+  /-- run.go `_case`, type-switch branch: every clause form goes through the one helper
+      `matchCase(f, v, typ)` — dynamic type of the operand; identity for struct and pointer clause
+      types; `methods().contains` + `needsPtrFor` for interface clause types; `nil` matches a nil
+      interface only — (since 9f81224) instead of three matchers on type identifiers and
+      representation types -/
+  caseUsesMatchCase : Bool
   /-- run.go `typeAssert`: the wrapper of an assertion to a host interface is made over the value the
       interface holds (`genInterfaceWrapperValue(val.node, rtype, held)`, since bbd3913) -/
   assertHostWrapsHeld : Bool
